@@ -15,7 +15,9 @@ CHECK = {
              'selector/pattern pairs capped at 4096; quick tier runs the biggest lengths in 1 case of 8, rotating with the '
              'seed). (c) seeded random arrays/selectors/sizes/tapes. After every sort: non-decreasing under the '
              'comparator, byte-wise permutation of the input records via unique tags (multiset for 1-byte records), vector '
-             'slack slots untouched; every comparator/swap argument must be an element of [arr, arr+count*size), the '
+             'slack slots untouched; array bytes equal a shadow permuted only by the observed swap calls (element bytes move '
+             'through the caller swap only); one raw-array run in three uses a swap function with a private scratch and '
+             'tmp == NULL (any library access through tmp crashes); every comparator/swap argument must be an element of [arr, arr+count*size), the '
              'scratch element or (searches) the probe; comparisons capped at 64*n*n+1024 (logical budget). Then binary '
              'search and linear find for every alphabet value and absent values below/between/above (all probes with '
              'selectors QUICK, HEAP and inline; two rotating probes with the others), find on the unsorted input and on '
